@@ -75,7 +75,7 @@ CLAIMED = {
             "Trusted: Lean kernel + standard axioms; transcription of flux kernels (L-flux-*), pipeline (L-rhs1d), integrators (L-int); sampling for the un-proved clauses.",
             "DESIGN.md 4/C10"),
     'C09': ("Lean 4 theorems (Harten's lemma on ZMod n for any ordered field: TVD and maximum principle; first-order upwind convection on ANY periodic mesh at CFL<=1 via the pipeline model; convexity of TV/range; limiter-ratio bounds) + exact-Q correspondence + TVD sweep",
-            "Machine-checked proof of Harten's TVD lemma and maximum principle on the cyclic index set, of the incremental form of one explicit step of the first-order periodic convection pipeline on an arbitrary mesh (either sign), hence TVD and range preservation for CFL<=1; convexity lemmas and the C05 Shu-Osher forms for the SSP lift; MUSCL coefficient bounds from the C12 limiter theorems. Partial: MUSCL/Burgers steps are not yet identified with the incremental form on the model; explored by the sweep (random, step, sawtooth, integer-tie, stationary-shock data).",
+            "Machine-checked proof of Harten's TVD lemma and maximum principle on the cyclic index set, of the incremental form of one explicit step of the first-order periodic convection pipeline on an arbitrary mesh (either sign), hence TVD and range preservation for CFL<=1; convexity lemmas and the C05 Shu-Osher forms for the SSP lift; MUSCL with any Sweby-region limiter (all four limiters proved to be in it) on a uniform periodic mesh at CFL<=1/2 is TVD and range-preserving for linear convection (a>0; through the cyclic refinement theorem). Partial: a<0 MUSCL (by reflection, not assembled), Burgers (Roe flux without entropy fix) are explored by the sweep (random, step, sawtooth, integer-tie, stationary-shock data).",
             "Trusted: Lean kernel + standard axioms; transcription of fvm1d/fluxes/limiters/integrators (layers L-rhs1d, L-flux-conv/burgers, L-lim, L-int, L-dt); sampling for the partial clauses.",
             "DESIGN.md 4/C09"),
     'C04': ("Lean 4 theorems for the algebraic ingredients of convergence (exact quadratic defect (k-1/3)h^2/2 of the kappa reconstruction with the generated constants, order conditions, Lax-Richtmyer accumulation, consistency and conservation) + measured convergence studies against exact solutions",
